@@ -253,3 +253,283 @@ Definition handle_response (d : dstate) (intf : myintf) (m : msg) : dstate * lis
                                 else add_set name acc) changes [] in
     let '(d', evs) := resolve_updated (set_cache c (d_resolved d) d) updated in
     (d', found ++ evs).
+
+(* ---- add_interface / del_interface_addr / apply_intf_selections ------------------------------------ *)
+
+Definition add_interface (d : dstate) (i : iface) : dstate * list obs :=
+  let idx := i_index i in
+  let '(intfs', new_addr) :=
+    match intf_get idx (d_intfs d) with
+    | Some m => if has_ifaddr (i_addr i) (mi_addrs m) then (d_intfs d, false)
+                else (intf_put (mkMyIntf (mi_name m) idx (mi_addrs m ++ [i_addr i])) (d_intfs d), true)
+    | None => (d_intfs d ++ [mkMyIntf (i_name i) idx [i_addr i]], true)
+    end in
+  if negb new_addr then (d, [])
+  else
+    let d1 := set_intfs intfs' (addN idx (d_regs d)) d in
+    match intf_get idx intfs' with
+    | None => (d1, [])
+    | Some my_intf =>
+      let v4 := is_v4 (i_ip i) in
+      (* services with automatic addresses take the new address and are announced on the
+         socket of its family *)
+      let '(svcs', sent) :=
+        fold_left (fun (acc : list (bytes * dsvc) * list obs) (kv : bytes * dsvc) =>
+                     let '(svcs, sent) := acc in
+                     let ds := snd kv in
+                     if ds_auto ds then
+                       let ds1 := svc_insert_ip (i_ip i) ds in
+                       match announce_on (ds_svc ds1) my_intf v4 with
+                       | Some p => (svcs ++ [(fst kv, mkDsvc (ds_svc ds1) true (status_set idx Announced (ds_status ds1)))],
+                                    sent ++ [OSent p])
+                       | None => (svcs ++ [(fst kv, mkDsvc (ds_svc ds1) true (status_set idx Probing (ds_status ds1)))], sent)
+                       end
+                     else (svcs ++ [kv], sent)) (d_svcs d1) ([], []) in
+      (upd_svcs (fun _ => svcs') d1, sent ++ [OIpAdd (i_ip i)])
+    end.
+
+Definition del_interface_addr (d : dstate) (i : iface) : dstate * list obs :=
+  let idx := i_index i in
+  match intf_get idx (d_intfs d) with
+  | None => (d, [])
+  | Some m =>
+    if has_ifaddr (i_addr i) (mi_addrs m) then
+      let addrs' := del_ifaddr (i_addr i) (mi_addrs m) in
+      let m' := mkMyIntf (mi_name m) idx addrs' in
+      let d1 :=
+        if is_nil addrs' then
+          set_cache (remove_addrs_on_disabled_intf (d_cache d) idx TBoth) (d_resolved d)
+                    (set_intfs (intf_remove idx (d_intfs d)) (filter (fun x => negb (x =? idx)) (d_regs d)) d)
+        else
+          let v4 := is_v4 (i_ip i) in
+          let d0 := set_intfs (intf_put m' (d_intfs d)) (d_regs d) d in
+          if negb (family_enabled m' v4)
+          then set_cache (remove_addrs_on_disabled_intf (d_cache d) idx (if v4 then TV4 else TV6)) (d_resolved d) d0
+          else d0 in
+      (map_svcs (svc_remove_ip (i_ip i)) d1, [OIpDel (i_ip i)])
+    else (d, [])
+  end.
+
+Definition apply_intf_selections (d : dstate) (tbl : list iface) : dstate * list obs :=
+  fold_left (fun (acc : dstate * list obs) (im : iface * bool) =>
+               let '(st, out) := acc in
+               let '(st', o) := if snd im then add_interface st (fst im) else del_interface_addr st (fst im) in
+               (st', out ++ o))
+            (combine tbl (selection_marks apply_selection_default (d_sels d) tbl)) (d, []).
+
+(* ---- check_ip_changes -------------------------------------------------------------------------------- *)
+
+Definition os_has (tbl : list iface) (idx : N) (a : ifaddr) : bool :=
+  existsb (fun i => (i_index i =? idx) && ifaddr_eqb (i_addr i) a) tbl.
+Definition os_has_index (tbl : list iface) (idx : N) : bool := existsb (fun i => i_index i =? idx) tbl.
+
+Definition check_ip_changes (d : dstate) : dstate * list obs :=
+  let tbl := d_os d in
+  (* addresses that vanished, interfaces left without any address *)
+  let kept := map (fun m => mkMyIntf (mi_name m) (mi_index m)
+                               (filter (fun a => os_has tbl (mi_index m) a) (mi_addrs m))) (d_intfs d) in
+  let deleted_ips := flat_map (fun m => map ia_ip (filter (fun a => negb (os_has tbl (mi_index m) a)) (mi_addrs m)))
+                              (d_intfs d) in
+  let deleted_intfs := filter (fun m => is_nil (mi_addrs m)) kept in
+  let d1 := set_intfs kept (d_regs d) d in
+  (* del_ip for every vanished address *)
+  let d2 := fold_left (fun st a => map_svcs (svc_remove_ip a) st) deleted_ips d1 in
+  let ev_del := map OIpDel deleted_ips in
+  (* interfaces that are gone: forget what was learned on them *)
+  let '(d3, ev_cache) :=
+    fold_left (fun (acc : dstate * list obs) (m : myintf) =>
+                 let '(st, out) := acc in
+                 let st1 := set_intfs (intf_remove (mi_index m) (d_intfs st)) (d_regs st) st in
+                 let rmv := remove_records_on_intf (d_cache st1) (mkIntfId (mi_name m) (mi_index m)) in
+                 let st2 := set_cache (rm_cache rmv) (d_resolved st1) st1 in
+                 let ev1 := notify_removed st2 (rm_removed rmv) in
+                 let '(st3, ev2) := resolve_updated st2 (rm_modified rmv) in
+                 (st3, out ++ ev1 ++ ev2)) deleted_intfs (d2, []) in
+  let '(d4, ev_apply) := apply_intf_selections d3 tbl in
+  (d4, ev_del ++ ev_cache ++ ev_apply).
+
+(* ---- datagrams ---------------------------------------------------------------------------------------- *)
+
+Record dgram : Type := mkDgram { dg_if : N; dg_src : ip; dg_port : N; dg_data : bytes }.
+
+Definition entries_on (d : dstate) (idx : N) : list entry :=
+  map (fun kv => mkEntry (fst kv) (ds_svc (snd kv)) (status_get idx (ds_status (snd kv)))) (d_svcs d).
+
+(* handle_read *)
+Definition handle_dgram (d : dstate) (g : dgram) : dstate * list obs :=
+  match intf_get (dg_if g) (d_intfs d) with
+  | None => (d, [])
+  | Some intf =>
+    if negb (family_enabled intf (is_v4 (dg_src g))) then (d, [])
+    else match decode (dg_data g) with
+         | Ok m =>
+           if N.land (m_flags m) 32768 =? 0 then
+             if memN (dg_if g) (d_regs d)
+             then (d, map OSent (opt_list (handle_query (mkHq (entries_on d (dg_if g)) [] intf m (dg_src g) (dg_port g)))))
+             else (d, [])
+           else handle_response d intf m
+         | _ => (d, [])
+         end
+  end.
+
+(* ---- commands ------------------------------------------------------------------------------------------ *)
+
+Inductive call : Type :=
+| CEnable (ks : list ifkind)
+| CDisable (ks : list ifkind)
+| CRegister (s : service) (auto : bool)
+| CUnregister (key : bytes)
+| CSetInterval (secs : N)
+| CBrowse (ty : bytes).
+
+Fixpoint svc_put (k : bytes) (v : dsvc) (l : list (bytes * dsvc)) : list (bytes * dsvc) :=
+  match l with
+  | [] => [(k, v)]
+  | (k', v') :: t => if beq k' k then (k, v) :: t else (k', v') :: svc_put k v t
+  end.
+Fixpoint svc_get (k : bytes) (l : list (bytes * dsvc)) : option dsvc :=
+  match l with
+  | [] => None
+  | (k', v) :: t => if beq k' k then Some v else svc_get k t
+  end.
+
+Definition add_retrans (r : list (N * rcmd)) (d : dstate) : dstate :=
+  mkD (d_os d) (d_intfs d) (d_regs d) (d_sels d) (d_svcs d) (d_cache d) (d_browsed d) (d_resolved d)
+      (d_interval d) (d_next_check d) (d_retrans d ++ r).
+
+(* register_service: automatic addresses, send_unsolicited_response, insertion *)
+Definition do_register (now : N) (d : dstate) (s : service) (auto : bool) : dstate * list obs :=
+  let s1 := if auto
+            then with_addrs s (fold_left (fun acc i => add_ip (i_ip i) acc) (selected_intfs (d_sels d) (d_os d)) (s_addrs s))
+            else s in
+  let key := lower (s_fullname s1) in
+  let '(status, sent, resend) :=
+    fold_left (fun (acc : list (N * status) * list obs * list (N * rcmd)) (intf : myintf) =>
+                 let '(status, sent, resend) := acc in
+                 let p4 := announce_on s1 intf true in
+                 let p6 := announce_on s1 intf false in
+                 let pk := opt_list p4 ++ opt_list p6 in
+                 if is_nil pk
+                 then (status_set (mi_index intf) Probing status, sent, resend)
+                 else (status_set (mi_index intf) Announced status, sent ++ map OSent pk,
+                       resend ++ [(now + 1000, RRegisterResend key (mi_index intf))]))
+              (d_intfs d) ([], [], []) in
+  let regs := fold_left (fun acc intf => addN (mi_index intf) acc) (d_intfs d) (d_regs d) in
+  let d1 := set_intfs (d_intfs d) regs d in
+  (add_retrans resend (upd_svcs (svc_put key (mkDsvc s1 auto status)) d1), sent).
+
+Definition do_unregister (now : N) (d : dstate) (key : bytes) : dstate * list obs :=
+  match svc_get key (d_svcs d) with
+  | None => (d, [])
+  | Some ds =>
+    let '(sent, resend) :=
+      fold_left (fun (acc : list obs * list (N * rcmd)) (intf : myintf) =>
+                   let '(sent, resend) := acc in
+                   let p4 := goodbye_on (ds_svc ds) intf true in
+                   let p6 := goodbye_on (ds_svc ds) intf false in
+                   (sent ++ map OSent (opt_list p4 ++ opt_list p6),
+                    resend ++ map (fun p => (now + 120, RUnregisterResend p (mi_index intf) true)) (opt_list p4)
+                           ++ map (fun p => (now + 120, RUnregisterResend p (mi_index intf) false)) (opt_list p6)))
+                (d_intfs d) ([], []) in
+    (add_retrans resend (upd_svcs (filter (fun kv => negb (beq (fst kv) key))) d), sent)
+  end.
+
+(* browse: the cached instances of the type are reported to the new listener *)
+Definition do_browse (d : dstate) (ty : bytes) : dstate * list obs :=
+  let c := d_cache d in
+  let '(resolved, out) :=
+    fold_left (fun (acc : list bytes * list obs) (r : crec) =>
+                 let '(resolved, out) := acc in
+                 match alias_of r with
+                 | Some inst =>
+                   match resolve_from_cache c ty inst with
+                   | Some ev => (add_set inst resolved, out ++ [OFound ty inst; ev])
+                   | None => (resolved, out ++ [OFound ty inst])
+                   end
+                 | None => acc
+                 end) (tget ty (c_ptr c)) (d_resolved d, []) in
+  (mkD (d_os d) (d_intfs d) (d_regs d) (d_sels d) (d_svcs d) c (add_set ty (d_browsed d)) resolved
+       (d_interval d) (d_next_check d) (d_retrans d), out).
+
+Definition do_call (now : N) (d : dstate) (c : call) : dstate * list obs :=
+  match c with
+  | CEnable ks =>
+    let sels := push_selections (d_sels d) ks true (d_os d) in
+    apply_intf_selections (mkD (d_os d) (d_intfs d) (d_regs d) sels (d_svcs d) (d_cache d) (d_browsed d) (d_resolved d)
+                               (d_interval d) (d_next_check d) (d_retrans d)) (d_os d)
+  | CDisable ks =>
+    let sels := push_selections (d_sels d) ks false (d_os d) in
+    apply_intf_selections (mkD (d_os d) (d_intfs d) (d_regs d) sels (d_svcs d) (d_cache d) (d_browsed d) (d_resolved d)
+                               (d_interval d) (d_next_check d) (d_retrans d)) (d_os d)
+  | CRegister s auto => do_register now d s auto
+  | CUnregister key => do_unregister now d key
+  | CSetInterval secs =>
+    (mkD (d_os d) (d_intfs d) (d_regs d) (d_sels d) (d_svcs d) (d_cache d) (d_browsed d) (d_resolved d)
+         (secs * 1000) (d_next_check d) (d_retrans d), [])
+  | CBrowse ty => do_browse d ty
+  end.
+
+(* ---- retransmissions ------------------------------------------------------------------------------------ *)
+
+Definition do_retrans (d : dstate) (c : rcmd) : dstate * list obs :=
+  match c with
+  | RRegisterResend key idx =>
+    match svc_get key (d_svcs d), intf_get idx (d_intfs d) with
+    | Some ds, Some intf =>
+      if memN idx (d_regs d) then
+        let pk := opt_list (announce_on (ds_svc ds) intf true) ++ opt_list (announce_on (ds_svc ds) intf false) in
+        if is_nil pk then (d, [])
+        else (upd_svcs (svc_put key (mkDsvc (ds_svc ds) (ds_auto ds) (status_set idx Announced (ds_status ds)))) d,
+              map OSent pk)
+      else (d, [])
+    | _, _ => (d, [])
+    end
+  | RUnregisterResend p idx v4 =>
+    match intf_get idx (d_intfs d) with
+    | Some intf => if family_enabled intf v4 then (d, [OSent p]) else (d, [])
+    | None => (d, [])
+    end
+  end.
+
+(* ---- one iteration of the run loop ------------------------------------------------------------------------ *)
+
+Record step : Type := mkStep {
+  st_now : N;
+  st_os : option (list iface);        (* the OS interface table changes before this iteration *)
+  st_dgrams : list dgram;
+  st_calls : list call }.
+
+Definition run_list {A} (f : dstate -> A -> dstate * list obs) (l : list A) (d : dstate) : dstate * list obs :=
+  fold_left (fun (acc : dstate * list obs) (x : A) => let '(st, out) := acc in let '(st', o) := f st x in (st', out ++ o))
+            l (d, []).
+
+Definition iterate (d : dstate) (s : step) : dstate * list obs :=
+  let now := st_now s in
+  let d0 := match st_os s with
+            | Some tbl => mkD tbl (d_intfs d) (d_regs d) (d_sels d) (d_svcs d) (d_cache d) (d_browsed d) (d_resolved d)
+                              (d_interval d) (d_next_check d) (d_retrans d)
+            | None => d end in
+  let '(d1, o1) := run_list handle_dgram (st_dgrams s) d0 in
+  let '(d2, o2) := run_list (do_call now) (st_calls s) d1 in
+  (* retransmissions whose time has come, in list order; the others stay *)
+  let due := filter (fun r => fst r <=? now) (d_retrans d2) in
+  let rest := filter (fun r => negb (fst r <=? now)) (d_retrans d2) in
+  let d2' := mkD (d_os d2) (d_intfs d2) (d_regs d2) (d_sels d2) (d_svcs d2) (d_cache d2) (d_browsed d2) (d_resolved d2)
+                 (d_interval d2) (d_next_check d2) rest in
+  let '(d3, o3) := run_list (fun st r => do_retrans st (snd r)) due d2' in
+  (* the periodic IP check *)
+  let set_next n st := mkD (d_os st) (d_intfs st) (d_regs st) (d_sels st) (d_svcs st) (d_cache st) (d_browsed st)
+                           (d_resolved st) (d_interval st) n (d_retrans st) in
+  let '(d4, o4) :=
+    if d_interval d3 =? 0 then (set_next 0 d3, [])
+    else if d_next_check d3 =? 0 then (set_next (now + d_interval d3) d3, [])
+    else if ip_check_due now (d_next_check d3) then check_ip_changes (set_next (now + d_interval d3) d3)
+    else (d3, []) in
+  (d4, o1 ++ o2 ++ o3 ++ o4).
+
+(* a history: the observations of every iteration *)
+Fixpoint run (d : dstate) (steps : list step) : list (list obs) :=
+  match steps with
+  | [] => []
+  | s :: t => let '(d', o) := iterate d s in o :: run d' t
+  end.
